@@ -231,7 +231,7 @@ pub fn run_check(replay: Option<Value>) -> i32 {
         if sb.status == Status::ProbablyStiff {
             out.tag("scaling-stiffness-detected");
         }
-        for k in [-500i32, -60, -20, -10, 10, 40, 500] {
+        for k in [-600i32, -500, -60, -20, -10, 10, 40, 500, 600] {
             let f = 2f64.powi(k);
             let mut cs = c.clone();
             cs.y0 = c.y0.iter().map(|v| v * f).collect();
@@ -260,7 +260,8 @@ pub fn run_check(replay: Option<Value>) -> i32 {
 
     // (b) power-of-two scaling of state and atol on linear homogeneous systems, (c) scalar vs vector tolerance
     let lprobs = linear_problems();
-    let ks = [-500i32, -200, -60, -20, -3, 1, 10, 40, 200, 500];
+    // (2^600 = 4e180: finite, but its square is not)
+    let ks = [-600i32, -500, -200, -60, -20, -3, 1, 10, 40, 200, 500, 600];
     let dims_b = vec![
         dim("method", &M6.iter().map(|m| mname(*m)).collect::<Vec<_>>()),
         dim("problem", &lprobs.iter().map(|p| p.name.clone()).collect::<Vec<_>>()),
@@ -509,7 +510,7 @@ pub fn run_check(replay: Option<Value>) -> i32 {
     }
     rep.require("scaling-long-run", 4);
     rep.require("scaling-stiffness-detected", 1);
-    rep.rule = "symmetry generators applied to every lattice point: (a) time reflection z'=-f(-s,z) on [-x0,-xend]: bitwise for explicit methods and implicit ones with the user Jacobian, 1e-6 with the finite-difference Jacobian, events mirrored within 4e-11; (b) state and atol scaled by 2^k, k in {-500,-200,-60,-20,-3,1,10,40,200,500}, on linear homogeneous systems: bitwise; (c) scalar tolerance as constant vector: bitwise; (d) m in {2,3,4,8,16} identical copies, first_step given and automatic: copies bitwise equal inside the run, same naccpt/nrejct and trajectories within 1e-5 of the single system; distinct = distinct RHS fingerprints".into();
+    rep.rule = "symmetry generators applied to every lattice point: (a) time reflection z'=-f(-s,z) on [-x0,-xend]: bitwise for explicit methods and implicit ones with the user Jacobian, 1e-6 with the finite-difference Jacobian, events mirrored within 4e-11; (b) state and atol scaled by 2^k, k in {-600,-500,-200,-60,-20,-3,1,10,40,200,500,600}, on linear homogeneous systems: bitwise; (c) scalar tolerance as constant vector: bitwise; (d) m in {2,3,4,8,16} identical copies, first_step given and automatic: copies bitwise equal inside the run, same naccpt/nrejct and trajectories within 1e-5 of the single system; distinct = distinct RHS fingerprints".into();
     rep.assumptions.push("bitwise equality is only demanded where IEEE arithmetic makes the symmetry exact (negation, powers of two, identical operation sequences)".into());
     rep.finish()
 }
